@@ -95,7 +95,9 @@ def run_partition(entries, parts, *, steps=400, start_gaps=None):
                 kw["components_to_run"] = None if p.get("components") is None else set(p["components"])
             sim = build_simulation(path, "internal", **kw)
             sims.append(sim)
-            built.append({"scheduler": sim._scheduler is not None, "components": sorted((sim._components or {}).keys())})
+            sch = next((v for v in vars(sim).values() if type(v).__name__ == "MasterScheduler"), None)
+            cps = next((v for v in vars(sim).values() if isinstance(v, dict) and all(hasattr(x, "run_forever") for x in v.values())), None) or {}
+            built.append({"scheduler": sch is not None, "components": sorted(cps.keys())})
         tasks = []
         for i, sim in enumerate(sims):
             for _ in range((start_gaps or [0] * len(sims))[i]):
